@@ -11,6 +11,7 @@ sees (`ok outs` / `raised e outs` / `closed outs` after an early abandon).
 -/
 import CobaVerif.Lemmas.C08
 import CobaVerif.Generated.C08Callback
+import CobaVerif.Generated.C08ReadWait
 
 namespace Coba.C08
 
@@ -436,6 +437,115 @@ open Coba.Generated.C08 in
 theorem generated_consumes (c : Cfg) (s : FState) :
     (stepF c s (.base .mEvent)).b.main = (if consumes s.mainErr then Phase.consuming else Phase.fin) := by
   cases h : s.mainErr <;> simp [stepF, step, consumes, h]
+
+/-! ### phase 6: the read_wait protocol of `MyProcessLine` is the program `workerProgram`, and the R layer executes it
+
+`workerProgram hasWait` = `MyProcessLine.run` (`runLine`; iff `start` created `_wait`: `writeKey`, `waitCaller`), `startRegisters` = the test in
+`MyProcessLine.start`, `callerSets` = the caller's dispatch test.  The `generated_*` obligations below tie them to the CURRENT source
+(`Generated/C08ReadWait.lean`, re-extracted on every run); the harness executes the real `start`/`run` (cases `rwproto`). -/
+
+/-- `runLine` → `writeKey`: when the line of lineage `w` ends (pill, error, `Slice` exhausted) under read_wait, the process is at `writeKey`
+and has NOT exited (its callback is blocked) -/
+theorem readwait_program_line_end (c : Cfg) (s : RState) (a : Action) (w : Nat) (h : lineEnds s.b a = some w) :
+    rwPc (stepR c true s (.base a)) w = 1 ∧ enabledR c (stepR c true s (.base a)) (.base (.wCallback w)) = false :=
+  readwait_program_line_end' c s a w h
+
+/-- without a store (`read_wait=False`: `workerProgram false = [runLine]`) a base step never makes a process wait -/
+theorem readwait_program_no_store (c : Cfg) (s : RState) (a : Action) :
+    (stepR c false s (.base a)).keyPending = s.keyPending ∧ (stepR c false s (.base a)).keyWait = s.keyWait :=
+  readwait_program_no_store' c s a
+
+/-- `writeKey`: possible at once (the out queue is unbounded), the key goes BEHIND everything already in the out queue (so behind all
+outputs of this process), the process is then in `waitCaller`, nothing else changes -/
+theorem readwait_program_write_key (c : Cfg) (rw : Bool) (s : RState) (w : Nat) (h : rwPc s w = 1) :
+    enabledR c s (.wKey w) = true ∧ (stepR c rw s (.wKey w)).routq = s.routq ++ [.key w]
+    ∧ (stepR c rw s (.wKey w)).keyWait.contains w = true ∧ (stepR c rw s (.wKey w)).b = s.b :=
+  readwait_program_write_key' c rw s w h
+
+/-- as long as the program of `w` has not ended (pc ≠ 0) the process has not exited: `filter_finished_or_failed` cannot run for it -/
+theorem readwait_program_blocks_exit (c : Cfg) (s : RState) (w : Nat) (h : rwPc s w ≠ 0) :
+    enabledR c s (.base (.wCallback w)) = false := readwait_program_blocks_exit' c s w h
+
+/-- `waitCaller` returns only through the caller: no step other than `cKey` takes a lineage out of `keyWait` -/
+theorem readwait_program_wait_released_by_caller (c : Cfg) (rw : Bool) (s : RState) (a : ActionR) (w : Nat)
+    (ha : a ≠ .cKey) (hw : s.keyWait.contains w = true) : (stepR c rw s a).keyWait.contains w = true :=
+  readwait_program_wait_released_by_caller' c rw s a w ha hw
+
+/-- the caller's dispatch IS `callerSets`: a key at the head ⇒ `.set()` (step `cKey`), anything else ⇒ `yield` (step `cGet`) -/
+theorem readwait_caller_dispatch (c : Cfg) (s : RState) :
+    enabledR c s .cKey = (s.b.main == .consuming && callerSets true (isKeyHead s.routq))
+    ∧ enabledR c s (.base .cGet) = (enabled c s.b .cGet && !callerSets true (isKeyHead s.routq)) :=
+  readwait_caller_dispatch' c s
+
+/-- `read_waiters[i].set()` releases exactly the owner of the key, consumes the key, yields nothing -/
+theorem readwait_caller_sets_owner (c : Cfg) (rw : Bool) (s : RState) (w : Nat) (rest : List ROut) (h : s.routq = .key w :: rest) :
+    (stepR c rw s .cKey).routq = rest ∧ (stepR c rw s .cKey).keyWait.contains w = false ∧ (stepR c rw s .cKey).b.recv = s.b.recv
+    ∧ ∀ w', w' ≠ w → (stepR c rw s .cKey).keyWait.contains w' = s.keyWait.contains w' :=
+  readwait_caller_sets_owner' c rw s w rest h
+
+/-- the hypotheses are satisfiable / the programs are what the comments say -/
+example :
+    (workerProgram true).map RWOp.code = [0, 1, 2] ∧ (workerProgram false).map RWOp.code = [0]
+    ∧ rwPc { b := init rwCfg, routq := [], keyPending := [0], keyWait := [] } 0 = 1
+    ∧ rwPc (stepR rwCfg true { b := init rwCfg, routq := [], keyPending := [0], keyWait := [] } (.wKey 0)) 0 = 2 :=
+  readwait_program_example'
+
+/-- translator obligations (source ↦ model): `MyProcessLine.run` is `workerProgram` … -/
+theorem generated_worker_program (hasWait : Bool) :
+    Coba.Generated.C08RW.workerProgramCodes hasWait = (workerProgram hasWait).map RWOp.code := by cases hasWait <;> rfl
+
+/-- … `MyProcessLine.start` registers iff a store was handed in (also an EMPTY one), before the process is started, and removes the
+store from the object that is pickled into the child … -/
+theorem generated_start_registers (store nonEmpty : Bool) :
+    Coba.Generated.C08RW.startRegisters store nonEmpty = startRegisters store nonEmpty
+    ∧ Coba.Generated.C08RW.registersBeforeStart = true ∧ Coba.Generated.C08RW.storeRemoved = true := by
+  cases store <;> cases nonEmpty <;> decide
+
+/-- … and the caller's dispatch is `callerSets`, its key branch exactly `read_waiters[i].set()`, its else branch exactly `yield i` -/
+theorem generated_caller_dispatch (rw isKey : Bool) :
+    Coba.Generated.C08RW.callerSets rw isKey = callerSets rw isKey
+    ∧ Coba.Generated.C08RW.callerKeyAction = 1 ∧ Coba.Generated.C08RW.callerElseYields = true := by
+  cases rw <;> cases isKey <;> decide
+
+/-! ### phase 6: histories in which the calls on one object are ALIVE AT THE SAME TIME (read / read a sibling / abandon / read again)
+
+`Action2`, `enabled2`, `step2`, `runTrace2`, `Reachable2` (Model/C08.lean): the joint system of two calls on the same object, for ALL
+interleavings of their loaders, workers, callbacks and of the caller's pulls from the two generators. -/
+
+/-- every joint run projects to a run of each call on its own: so every single-call theorem (`exactly_once`, `ok_complete`, `never_duplicated`,
+`error_surfaces`, `raised_genuine`, `max_tasks_respected`, …) holds for each of the calls, whatever the sibling does -/
+theorem overlapping_calls_project (c1 c2 : Cfg) (tr : List Action2) (s t : State × State) (h : runTrace2 c1 c2 s tr = some t) :
+    runTrace c1 s.1 (proj1 tr) = some t.1 ∧ runTrace c2 s.2 (proj2 tr) = some t.2 := overlapping_calls_project' c1 c2 tr s t h
+
+theorem overlapping_calls_reachable (c1 c2 : Cfg) (s : State × State) (h : Reachable2 c1 c2 s) :
+    Reachable c1 s.1 ∧ Reachable c2 s.2 := overlapping_calls_reachable' c1 c2 s h
+
+/-- a step of one call neither enables nor disables a step of the other, and the two commute -/
+theorem overlapping_calls_no_interference (c1 c2 : Cfg) (s : State × State) (a b : Action) :
+    enabled2 c1 c2 (step2 c1 c2 s (.first a)) (.second b) = enabled2 c1 c2 s (.second b)
+    ∧ enabled2 c1 c2 (step2 c1 c2 s (.second b)) (.first a) = enabled2 c1 c2 s (.first a)
+    ∧ step2 c1 c2 (step2 c1 c2 s (.first a)) (.second b) = step2 c1 c2 (step2 c1 c2 s (.second b)) (.first a) :=
+  overlapping_calls_no_interference' c1 c2 s a b
+
+/-- the sibling delivers every output exactly once, whatever the first call does meanwhile (runs, raises, is abandoned, is never read again) -/
+theorem overlapping_calls_exactly_once (c1 c2 : Cfg) (hn : 0 < c2.n) (s : State × State) (hr : Reachable2 c1 c2 s)
+    (hd : s.2.main = .done) (hab : s.2.abandoned = false) (hne : ∀ x ∈ c2.items, x.err = none ∧ x.perr = none) :
+    ∃ outs, outcome s.2 = .ok outs ∧ outs.Perm (allOuts c2) := overlapping_calls_exactly_once' c1 c2 hn s hr hd hab hne
+
+/-- never hangs: as long as one of the two calls has not returned, a step of the code (not "the caller gives up") is possible … -/
+theorem overlapping_calls_deadlock_free (c1 c2 : Cfg) (hn1 : 0 < c1.n) (hn2 : 0 < c2.n) (s : State × State) (hr : Reachable2 c1 c2 s)
+    (hnd : s.1.main ≠ .done ∨ s.2.main ≠ .done) :
+    ∃ a, a ≠ Action2.first .cAbandon ∧ a ≠ Action2.second .cAbandon ∧ enabled2 c1 c2 s a = true :=
+  overlapping_calls_deadlock_free' c1 c2 hn1 hn2 s hr hnd
+
+/-- … and every joint schedule is finite: the sum of the two measures strictly decreases on every step -/
+theorem overlapping_calls_variant (c1 c2 : Cfg) (s : State × State) (a : Action2) (h : enabled2 c1 c2 s a = true) :
+    mu c1 (step2 c1 c2 s a).1 + mu c2 (step2 c1 c2 s a).2 < mu c1 s.1 + mu c2 s.2 := overlapping_calls_variant' c1 c2 s a h
+
+/-- the hypotheses are satisfiable: two one-item calls (n = 1, m = 1) alive together, the sibling is read first; both end `ok [1]` -/
+example :
+    (runTrace2 exOv exOv (init exOv, init exOv) exOvTrace).map (fun s => (outcome s.1, outcome s.2)) = some (.ok [1], .ok [1]) :=
+  overlapping_calls_example'
 
 /-! ### the hypotheses are satisfiable: complete schedules observed on the real code
 (logged by the harness from `Multiprocessor.filter` under the controlled scheduler) -/
